@@ -13,11 +13,11 @@ pub struct Regress {
 }
 
 fn leaf(script: &[Step]) -> ChildSpec {
-    ChildSpec::Leaf(LeafSpec { script: script.to_vec(), always: false, hint: false, dropwake: false })
+    ChildSpec::Leaf(LeafSpec { script: script.to_vec(), always: false, hint: 0, dropwake: false })
 }
 
 fn comb_case(family: Family, container: Container, children: Vec<ChildSpec>) -> Case {
-    Case { root: CombSpec { family, container, children, variant: 0 }, schedule: vec![], drain: vec![0; 8], no_drain: false, fair_polls: 0, post_polls: 0, storm: false }
+    Case { root: CombSpec { family, container, children, variant: 0 }, schedule: vec![], drain: vec![0; 8], no_drain: false, fair_polls: 0, post_polls: 0, storm: false, unwind_drop: false }
 }
 
 fn comb(prop: &'static str, name: &str, case: Case) -> Regress {
@@ -52,7 +52,7 @@ pub fn cases(prop: &str, tier: Tier) -> Vec<Regress> {
         "C15" => {
             use crate::costream::{Adapter, CoCase, SourceKind, Terminal};
             // F2: take(0) must process no item at all
-            let ready = || LeafSpec { script: vec![Step::Yield(true)], always: false, hint: false, dropwake: false };
+            let ready = || LeafSpec { script: vec![Step::Yield(true)], always: false, hint: 0, dropwake: false };
             for source in [SourceKind::Co, SourceKind::Vec] {
                 for terminal in [Terminal::CollectVec, Terminal::ForEach, Terminal::TryForEach] {
                     for (sname, stack) in [
@@ -68,7 +68,7 @@ pub fn cases(prop: &str, tier: Tier) -> Vec<Regress> {
                         let case = CoCase {
                             source,
                             src_script: vec![Step::Yield(true); n],
-                            src_hint: false,
+                            src_hint: 0,
                             stack: stack.clone(),
                             terminal,
                             work,
@@ -84,7 +84,7 @@ pub fn cases(prop: &str, tier: Tier) -> Vec<Regress> {
         "C17" => {
             // rotation state that only goes wrong after very many polls (a
             // counter that wraps at 2^8 or 2^16), or for very many inputs
-            let always = || ChildSpec::Leaf(LeafSpec { script: vec![], always: true, hint: false, dropwake: false });
+            let always = || ChildSpec::Leaf(LeafSpec { script: vec![], always: true, hint: 0, dropwake: false });
             let long = |c: Container, n: usize, polls: u32| {
                 let mut case = comb_case(Family::Merge, c, (0..n).map(|_| always()).collect());
                 case.fair_polls = polls;
